@@ -163,12 +163,16 @@ impl<T, E> Write<Result<T, E>> {
 pub unsafe trait DerefWrite: Deref {}
 
 // SAFETY: All these types have pure & non-GC-traversing Deref impls
-unsafe impl<T: ?Sized> DerefWrite for &T {}
 unsafe impl<T: ?Sized> DerefWrite for alloc::boxed::Box<T> {}
 unsafe impl<T> DerefWrite for Vec<T> {}
-unsafe impl<T: ?Sized> DerefWrite for alloc::rc::Rc<T> {}
+// SAFETY: A shared reference, an `Rc` or an `Arc` does not own its target: the target may live
+// inside (or be shared with) a *different* GC'd object than the one the write barrier was
+// triggered on, so projecting a `Write` through it is only sound when the target cannot hold
+// `Gc` pointers at all, which `T: 'static` guarantees (the same argument as `Write::from_static`).
+unsafe impl<T: ?Sized + 'static> DerefWrite for &T {}
+unsafe impl<T: ?Sized + 'static> DerefWrite for alloc::rc::Rc<T> {}
 #[cfg(target_has_atomic = "ptr")]
-unsafe impl<T: ?Sized> DerefWrite for alloc::sync::Arc<T> {}
+unsafe impl<T: ?Sized + 'static> DerefWrite for alloc::sync::Arc<T> {}
 
 /// Types which preserve write barriers when indexed.
 ///
